@@ -161,6 +161,24 @@ func runOrder(hdr Header, c any, src string) CaseResult {
 			return res
 		}
 	}
+	// a REJECTED marshal in between (same property names, all listed, then a property whose nested schema has a
+	// duplicate PropertyOrder entry): the error is the specified outcome, and what the failed call got through
+	// before failing must not show in the marshals of s that follow
+	{
+		ps := map[string]*jsonschema.Schema{}
+		for k, v := range props {
+			ps[k] = v
+		}
+		ps["zzbad"] = &jsonschema.Schema{Properties: map[string]*jsonschema.Schema{"q": {}}, PropertyOrder: []string{"q", "q"}}
+		po := append(abs.SortedKeys(toAnyMap(props)), "zzbad")
+		res.Evals++
+		if pb, perr := json.Marshal(&jsonschema.Schema{Type: "object", Properties: ps, PropertyOrder: po}); perr == nil {
+			res.Failures = append(res.Failures, Failure{Kind: "order", Source: src, Abstract: c,
+				Concrete: map[string]any{"properties": abs.SortedKeys(toAnyMap(ps)), "PropertyOrder": po, "nested PropertyOrder of zzbad": []string{"q", "q"}},
+				Expected: "Marshal rejects a duplicate PropertyOrder entry (nested schema)", Got: string(pb)})
+			return res
+		}
+	}
 	// determinism under randomised map iteration
 	for i := 0; i < 30; i++ {
 		res.Evals++
